@@ -57,6 +57,7 @@ type Server struct {
 	wg              sync.WaitGroup
 	logger          *slog.Logger
 	types           *pgtype.Map
+	typeExtensions  []func(*pgtype.Map)
 	Auth            AuthStrategy
 	BufferedMsgSize int
 	Parameters      Parameters
@@ -124,7 +125,14 @@ func (srv *Server) Serve(listener net.Listener) error {
 }
 
 func (srv *Server) serve(ctx context.Context, conn net.Conn) error {
-	ctx = setTypeInfo(ctx, srv.types)
+	// NOTE: a type map memoizes encode and decode plans and is not safe for
+	// concurrent use. Each connection is served using its own type map.
+	typeMap := pgtype.NewMap()
+	for _, extend := range srv.typeExtensions {
+		extend(typeMap)
+	}
+
+	ctx = setTypeInfo(ctx, typeMap)
 	ctx = setRemoteAddress(ctx, conn.RemoteAddr())
 	defer conn.Close()
 
